@@ -9,6 +9,27 @@ CLAIMED = {
  "C05": ("lean+lockstep", "Lean 4 theorems over a model of key-space/murmur/key encoders; regenerated constants and one-liners (gofacts); lockstep differential correspondence",
    "Proved for all key-group counts 1..65535, operator counts and keys: ranges partition [0,kgc) contiguously with sizes differing by at most one; the router's table lookup returns the unique range containing the key's group; state and timer keys are owned by exactly that range; murmur model reproduces the reference vectors (kernel decide). The model is tied to the code by regenerated constants/functions and by lockstep comparison of ranges, hashes, groups, routing (real operatorCluster), encoders and OwnsKey.",
    "Lean kernel; gofacts translator; harness. uint16 narrowing in NewKeySpace proved harmless; Go int overflow not modelled (values <= 70000).", "8/C05"),
+ "C19": ("lean+lockstep", "Lean 4 theorems (refinement of sorted-list specifications) + regenerated compare/pick functions + lockstep on the real structures",
+   "Proved for all operation sequences, keys, priorities and (zip tree) all rank outcomes: SearchUnique finds exactly the matching element on strictly ascending input incl. the table-range level lookup; heap push/pop/fix keep order and contents and pop a minimum; MergeSorted is a sorted permutation and Merge/kv.MergeEntries yields one newest entry per key; the zip tree, SortedCache (byte accounting), Set, SortedMap and the partitioned queue (Peek = global minimum) refine sorted-list specifications. Tied to the code by regenerated compare/pick functions and lockstep comparison of every exported method on the real structures, plus theorem instances evaluated on the implementation.",
+   "Lean kernel; gofacts; harness. google/btree and slices.BinarySearch trusted; Partition.Index() abstracted to heap position (checked by lockstep); uint64 counters as Nat; iterator early-termination not modelled.", "8/C19"),
+ "C17": ("lean+lockstep", "Lean 4 theorems over byte-level codec models + regenerated constants + byte-exact differential runs against the real writers/readers",
+   "Proved for all runs, keys, prefixes and WAL histories: entry/record codecs invert; Table.Get on the written file equals lookup in the sorted run (including below-first, after-last and bloom false positives); ScanPrefix equals the prefix filter; footer loading recovers the writer's bloom filter and index; the bloom filter has no false negatives; WriteRun chunks concatenate to the input with non-empty, ordered, disjoint ranges; the WAL reader returns exactly the records after the marker, and after any put/delete/cut/truncate/rotate history the saved file replays everything newer than the truncations. Tied by regenerated constants and byte-exact differential runs against the real writers and readers.",
+   "Lean kernel plus leanchecker; gofacts; harness. Offsets < 2^32, consecutive seqNums and marker >= truncations are hypotheses; slices.BinarySearchFunc is modelled as its loop and proved; the WriteRun size bounds are not proved; malformed-file error paths are compared empirically only; the model describes the code after repairs D19/D27/D29/D30/D31.", "8/C17"),
+ "C10": ("lean+lockstep", "Lean 4 refinement proof (cache/store/registry model refines a timer-set spec) + lockstep on the real TimerRegistry over a real DKV",
+   "Machine-checked refinement of the line-by-line cache, store and registry model to a timer-set spec for every cache size, key-group range, history of registrations/advances and restore point: exactly-once, ordered firing, idempotent registration, pending set preserved by restore. Tied by lockstep on the real TimerRegistry/TimerStore/KeyGroupPriorityQueue over a real in-memory DKV with checkpoint and reopen at arbitrary points.",
+   "DKV and partition heap are represented by their specs (C07/C08, C19); 0 <= t < 2^63; the operator-level fire loop with interleaved flushes is tied by lockstep only.", "8/C10"),
+ "C11": ("lean+lockstep", "Lean 4 theorems over the watermarker/registry/operator watermark path + regenerated comparisons + lockstep on the real Watermarker, runner send path and Operator",
+   "Proved for every timestamp sequence, runner count and interleaving: per-runner watermark monotone, strictly below the max forwarded timestamp and equal to max - (lateness+1); composite = min over upstreams with epoch default; the handler is told the composite; no timer above it fires. Tied by regenerated comparisons and constants plus lockstep on the real Watermarker, SourceRunner send path and Operator event loop (exhaustive interleavings for 2-3 runners).",
+   "Before the first watermark message the handler-visible field is time.Time{} (modelled as it is); pre-epoch timestamps excluded by hypothesis.", "8/C11"),
+ "C02": ("lean+tracevalidation", "Lean 4 invariant proofs over a transition system of the operator's alignment + hook-controlled trace validation of the real operator",
+   "The consistent cut, blocking of post-barrier items, id-mismatch rejection and fresh barriers for consecutive checkpoints are proved in Lean for every sender count, script, batch size and interleaving of the modelled atomic sections. The model is tied to the real operator.Operator by hook-controlled trace validation of generated schedules, including exhaustive small interleavings, with the DKV checkpoint read back.",
+   "The model assumes the job ack and db.Checkpoint succeed, senders are sequential and in SourceRunnerIds, no SourceComplete events. Scheduling below the RWMutex/channel sections is trusted; the DKV store is abstracted as a map (C07/C08).", "8/C02"),
+ "C16": ("lean+lockstep", "Lean 4 theorems over models of the runner cut, Partition, Kinesis split tracker/splitter + lockstep/trace correspondence with the real splitter, kinesisfake and SourceRunner",
+   "Proved in Lean for all histories: the runner loop's checkpoint reports equal the emitted prefix at the barrier; sliceu.Partition puts every split in exactly one group; the Kinesis splitter model hands no shard out twice per epoch and resumes every checkpointed shard once with its cursor; children are handed out only after their parents are finished - in full for a splitter that persists withheld shards, and for the code as it is under the stated exclusion (children_withheld_partial; D16c is an open known finding; D16a/b/d repaired). Tied to the real SourceSplitter, SplitTracker and kinesisfake, the embedded and httpapi splitters, uniformlyAssignShard and the real SourceRunner.",
+   "Shard ids modelled as naturals; float64 rounding of big.Rat modelled exactly; reader abstract in the cut theorem; completeness-after-tick only checked on the implementation.", "8/C16"),
+ "C15": ("lean+tracevalidation", "Lean 4 invariant proofs over the job FSM model + trace validation of the real jobs.Job, snapshots.Store and operator.Operator + regenerated heartbeat-expiry predicate",
+   "Lean theorems over an executable model of the job FSM, the store's pending snapshot and the operators' checkpoint record cover all action sequences: deploy only on exactly WorkerCount live registered nodes, unhealthy pauses, redeploy from the newest checkpoint, no stale in-flight state after a (re)deploy, bounded checkpoint progress. Tied by trace validation of the real jobs.Job with its real Store and real Operators, and by a regenerated heartbeat-expiry predicate. PARTIAL: liveness is stated as safety plus bounded progress.",
+   "Liveness = safety (no_stale_inflight, pending_belongs_to_assembly, record_within_sources) + bounded progress (checkpoint_progress) under fair delivery. Source runners, clock, RPC and storage are fakes; the mini-cluster tie is not built. D15 repaired.", "8/C15"),
 }
 
 hooks_commits = subprocess.run(["git", "-C", "/repo", "log", "--format=%h %s", "160f5f0..HEAD"], capture_output=True, text=True).stdout.splitlines()
